@@ -428,6 +428,11 @@ impl Compressor for HuffmanCompressor {
 /// rANS-based compressor
 pub struct RansCompressor {
     encoder: Rans64Encoder<ParallelX1>,
+    /// Symbol counts the encoder was built from.  These (not the encoder's normalised
+    /// table) are stored with the compressed data: the decoder rebuilds its table with
+    /// `Rans64Encoder::new`, which normalises its input, and normalising an already
+    /// normalised table does not reproduce it.
+    frequencies: [u32; 256],
 }
 
 impl RansCompressor {
@@ -461,7 +466,10 @@ impl RansCompressor {
         }
 
         let encoder = Rans64Encoder::<ParallelX1>::new(&frequencies)?;
-        Ok(Self { encoder })
+        Ok(Self {
+            encoder,
+            frequencies,
+        })
     }
 }
 
@@ -473,9 +481,9 @@ impl Compressor for RansCompressor {
 
         let mut result = Vec::new();
 
-        // Store frequencies table (4 bytes per frequency)
-        for i in 0..=255u8 {
-            let freq = self.encoder.get_symbol(i).freq;
+        // Store the frequency table the encoder was built from (4 bytes per frequency);
+        // decompress() feeds it to Rans64Encoder::new exactly like new() did
+        for freq in &self.frequencies {
             result.extend_from_slice(&freq.to_le_bytes());
         }
 
